@@ -1,6 +1,6 @@
 import Storrent.Model.WireCanon
 import Storrent.Gen.WireTable
-/- line-protocol driver for the C04 stream: `dec <hex>` / `decx <hex>` -/
+/- line-protocol driver for the C04 stream: `dec <hex>` / `decs <hex> <cuts> <hex|->` / `decx <hex>` -/
 namespace Storrent.Drive.C04
 open Storrent Storrent.Wire
 
@@ -21,6 +21,11 @@ def obsOf (bs : Bytes) : String :=
 def step (_ : Unit) (ws : List String) : Unit × String :=
   match ws with
   | ["dec", h] => match ofHex h with
+    | some bs => ((), obsOf bs)
+    | none => ((), "bad-op")
+  | ["decs", h, _, _] => match ofHex h with
+    -- delivery in short reads, another connection decoding in the gaps: the outcome is a
+    -- function of the byte sequence alone (the model takes nothing else)
     | some bs => ((), obsOf bs)
     | none => ((), "bad-op")
   | ["decx", _] => ((), "x")
